@@ -11,7 +11,7 @@
     checked against the built binary on generated trees by the check itself. *)
 From Coq Require Import Permutation.
 From GFS Require Import Base Pipeline PipelineProofs.
-From GFS Require Pad Seq Path Listing SpecListing Seqls WalkLts WalkFn GenWalkFn OnDirEnt GenOnDirEnt DiskProofs WalkProofs WalkSched WalkFnProofs OnDirEntProofs SeqlsCover ArgsProofs.
+From GFS Require Pad Seq Path Listing SpecListing Seqls WalkLts WalkFn GenWalkFn OnDirEnt GenOnDirEnt DiskProofs WalkProofs WalkSched WalkFnProofs OnDirEntProofs SeqlsCover ArgsProofs AuditProofs.
 From GFS Require Fastwalk GenFastwalk FastwalkProofs.
 
 Section C17.
@@ -367,3 +367,33 @@ Print Assumptions fastwalk_never_deadlocks.
 Print Assumptions fastwalk_always_terminates.
 Print Assumptions fastwalk_without_recheck_is_wrong.
 Print Assumptions fastwalk_search_is_sound.
+
+Import AuditProofs.
+
+(** ---- composition: the worker pipeline run on the jobs the walk produces prints, whatever the
+    scheduling, exactly the lines of the sequential model; and the exact listing WITH links ---- *)
+(** pipeline theorem instantiated with the seqls jobs *)
+Theorem any_worker_schedule_prints_the_model_lines : forall n f cwd t args s, 1 <= n ->
+  Pipeline.steps (srun f cwd t) (Pipeline.init n (sjobs f t (norm_args args))) s -> Pipeline.final s ->
+  Permutation (List.concat (Pipeline.printed s)) (seqls_lines f cwd t args).
+Proof. exact pipeline_prints_seqls_lines. Qed.
+Print Assumptions any_worker_schedule_prints_the_model_lines.
+
+(** an independent specification with one link edge ([lreach]) of what is listed when links are flat *)
+Theorem listing_with_flat_links_is_exactly_the_reachable_pairs : forall t all root real,
+  wf_tree t -> flat_links t -> skipped all root = false ->
+  forall s r, In (s, r) (fst (walk_root t all root real [])) <-> lreach t all root real s r.
+Proof. exact dfs_lists_exactly_the_reachable_pairs. Qed.
+Print Assumptions listing_with_flat_links_is_exactly_the_reachable_pairs.
+
+(** every spelled path once, every pair once; a real directory may appear under two spellings *)
+Theorem each_reachable_spelling_is_listed_exactly_once : forall t all root real,
+  wf_tree t -> flat_links t -> names_ok t -> skipped all root = false ->
+  let jobs := fst (walk_root t all root real []) in
+  NoDup (map fst jobs) /\ NoDup jobs /\
+  (forall s r, lreach t all root real s r -> count_occ job_dec jobs (s, r) = 1) /\
+  (forall s r, ~ lreach t all root real s r -> count_occ job_dec jobs (s, r) = 0) /\
+  (forall s r r', lreach t all root real s r -> lreach t all root real s r' -> r = r').
+Proof. exact dfs_lists_each_reachable_pair_exactly_once. Qed.
+Print Assumptions each_reachable_spelling_is_listed_exactly_once.
+
